@@ -256,7 +256,10 @@ inductive Att
 
 /-- `_convert_from` after the `tried_encodings` bookkeeping (dammit.py:937-959) for the looked-up name `r`. -/
 def attempt (t : MsTables) (r : PStr) (mode : Mode) (replace : Bool) (data : Bytes) : Att :=
-  if data = [] then .ok [] else      -- CPython: `str(b"", anything, …)` is `""` without looking the codec up (BOM-only input)
+  -- CPython: `str(b"", anything, …)` is `""` without looking the codec up (BOM-only input); since 62e9858 `_to_unicode`
+  -- asks the codec first for empty data (`"".encode(encoding)`): a name that is no codec fails like for any other data,
+  -- a text codec (every listed `other` codec is one: the translator asserts it) decodes nothing to nothing
+  if data = [] then (match codecInfo r with | .notACodec => .fail | .unlisted => .beyond | _ => .ok []) else
   match codecInfo r with
   | .notACodec => .fail                                   -- `str(data, r, …)` raises LookupError, caught :954
   | .other | .unlisted => .beyond
